@@ -11,7 +11,9 @@ LEVEL = "exploration"
 RULE = (
     "forward conversion, ranges, round trip and safe==plain enumerated on all 2^24 colours (both tiers, exhaustive); "
     "inverse compared with O-OKLAB on an L x C x H grid (C up to 0.5) and Hypothesis triples (C tail to 5 and beyond, "
-    "H in [-720,1080]); achromatic axis (C=0) on a fine L grid; safe variants on invalid finite input. Non-trivial: "
+    "H in [-720,1080]); achromatic axis (C=0) on a fine L grid; safe variants on invalid finite input; a history leg hands out-of-range "
+    "and non-integer channel values to the plain public functions and then re-checks the valid colours a sloppy cache key would "
+    "confuse them with (clamped, wrapped, packed/unpacked base 256 and 255). Non-trivial: "
     "every enumerated colour / grid point; for Hypothesis triples those that are out of the sRGB gamut or invalid."
 )
 ASSUMPTIONS = [
@@ -203,6 +205,55 @@ def safe_invalid_judge(case):
     return {"nt": None if valid else ("safe-rgb", t), "cls": ["rgb-valid" if valid else "rgb-invalid"], "sample": {"rgb": list(t), "oklch": list(got)}}
 
 
+def _aliases(t):
+    """Valid 8-bit colours that a sloppy cache key could confuse with the (possibly invalid / non-integer) input t."""
+    out = set()
+    try:
+        ints = [int(v) for v in t]
+    except (ValueError, OverflowError):
+        return out
+    out.add(tuple(min(255, max(0, v)) for v in ints))          # clamped
+    out.add(tuple(v % 256 for v in ints))                       # wrapped
+    for base in (256, 255):                                      # packed into one number, then unpacked
+        key = (ints[0] * base + ints[1]) * base + ints[2]
+        if key >= 0:
+            out.add(((key // (256 * 256)) % 256, (key // 256) % 256, key % 256))
+    return {c for c in out if all(0 <= v <= 255 for v in c)}
+
+
+def poison_judge(case):
+    """Out-of-range or non-integer channel values handed to the PLAIN public functions (whatever they do with them)
+    must not change what valid 8-bit colours convert to afterwards."""
+    cv = _conv()
+    t = tuple(case["rgb"])
+    for fn, arg in ((cv.rgb_to_oklch, t), (cv.rgb_to_oklch_safe, t), (getattr(cv, "rgb_to_lab", None), t)):
+        if fn is None:
+            continue
+        try:
+            fn(arg)
+        except Exception:
+            pass
+    lin = getattr(cv, "rgb_to_linear", None)
+    if lin is not None:
+        for v in t:
+            try:
+                lin(v)
+            except Exception:
+                pass
+    checked = 0
+    for c in sorted(_aliases(t)):
+        _check_forward(c, cv)
+        checked += 1
+    return {"nt": ("poison", str(t)) if checked else None, "cls": [f"poison:{'float' if any(isinstance(v, float) for v in t) else 'int'}"],
+            "sample": {"poison": list(t), "rechecked": [list(c) for c in sorted(_aliases(t))[:3]]}}
+
+
+def poison_strategy():
+    ch = st.one_of(st.integers(0, 255), st.integers(0, 255), st.integers(-300, 700), st.floats(0, 255.999, allow_nan=False).map(lambda v: round(v, 3)),
+                   st.integers(256, 600))
+    return st.tuples(ch, ch, ch).map(lambda t: {"rgb": list(t)})
+
+
 def safe_invalid_strategy():
     f = st.floats(-1e6, 1e6, allow_nan=False, allow_infinity=False)
     Ls = st.one_of(st.floats(-2.0, 3.0, allow_nan=False), f)
@@ -223,4 +274,5 @@ def subchecks(tier):
         Enum("achromatic-axis", block=grey_axis_block, judge=inverse_judge),
         Hyp("inverse-random", inverse_strategy, inverse_judge, examples=40000 if q else 800000),
         Hyp("safe-variants-invalid-input", safe_invalid_strategy, safe_invalid_judge, examples=20000 if q else 400000),
+        Hyp("valid-colours-after-invalid-calls", poison_strategy, poison_judge, examples=16000 if q else 320000),
     ]
